@@ -38,6 +38,16 @@ CLAIMED = {
             "on the observed pre/post views, result flag, transposed-back copy and bar key.",
             "Bounded scope; keys are compared up to enharmonic spelling via Theory's tonic table; when notes are wrapped the "
             "post-processing (normalise, note lengths) is judged only by the clauses the property states.", "6 (C14)"),
+    "C07": ("Normalise", "TLC model check of Normalise.tla (message-at-a-time open-table / signature / wait-buffer system, "
+            "all inputs up to the bound) + the same inputs and seeded random longer ones run through the real normalise + "
+            "TLC trace validation of (input, output, output normalised again)",
+            "TLC explores the reference system on every message list over a 12-letter alphabet (2 channels, pitch 1 = a "
+            "channel number, 2 signatures, 2 waits) up to length 4 (thorough 5), checking clock and open-table invariants "
+            "at every message and the acceptor at termination, and shows the invariants bite with two as-built defect "
+            "switches. All those inputs (ill-formed ones included) plus random lists up to length 9/14 over a 44-letter "
+            "alphabet go through the real code; TLC evaluates alternation, no repeated signature, duration, sounding-set "
+            "preservation for paired inputs, signatures in force and idempotence on each observation.",
+            "Bounded input length; sounding sets use nesting-count semantics.", "6 (C07)"),
 }
 PENDING = {}
 props = [json.loads(l) for l in open(V / "properties.jsonl")]
